@@ -66,6 +66,78 @@ def asserted_null(body, locs):
     return pts
 
 
+def owner_overwritten(b, start_pts, x, cons, nulls, null_edge_of):
+    """path-sensitive must-consume for one owned pointer: follow the locals that hold the value produced at `x` (moves transfer it, copies
+    duplicate it); report the point where the LAST holder is overwritten (or goes out of scope) before any holder was consumed, seen
+    to be null, or returned.  `null_edge_of`: {local: set((block, target))} edges on which that local is known null."""
+    from collections import deque
+    seen = set()
+    dq = deque((sp, frozenset([x])) for sp in start_pts)
+    steps = 0
+    while dq and steps < 200000:
+        steps += 1
+        pt, hold = dq.popleft()
+        if (pt, hold) in seen:
+            continue
+        seen.add((pt, hold))
+        blk, i = pt
+        if b.is_cleanup(blk):
+            continue
+        if pt in cons or pt in nulls:
+            c = b.call_at(blk) if i == b.nstmts(blk) else None
+            from .analysis import is_view
+            looks = c is not None and pt in cons and (is_view(c) or is_reclaim_atomic(c) == "load" or is_link_load(c))
+            if not looks and (c is None or any(op_root(a) in hold for a in c.args)):
+                continue                      # consumed (or asserted null) on this path; merely looking at the object is not
+        if i < b.nstmts(blk):
+            st = b.blocks[blk]["stmts"][i]
+            nh = set(hold)
+            if st["k"] == "assign" and not st["dst"]["proj"]:
+                d = st["dst"]["local"]
+                rv = st["rv"]
+                src = None
+                moved = False
+                if "use" in rv:
+                    pl = rv["use"].get("move") or rv["use"].get("copy")
+                    if pl and not pl["proj"]:
+                        src = pl["local"]
+                        moved = "move" in rv["use"]
+                if src in hold:
+                    nh.add(d)
+                    if moved:
+                        nh.discard(src)
+                elif d in hold:
+                    nh.discard(d)
+                    if not nh:
+                        return pt             # the last holder is overwritten: the value is lost
+                if "agg" in rv:
+                    # stored into an aggregate: ownership is handed on; stop following this path (borrows -- `&p` for p.is_null(),
+                    # p.deref() -- leave the ownership where it is)
+                    if any(op_root(o) in hold for o in rv.get("ops", [])):
+                        continue
+            elif st["k"] == "storage_dead" and st["local"] in hold:
+                nh.discard(st["local"])
+                if not nh:
+                    return pt
+            dq.append((Point(blk, i + 1), frozenset(nh)))
+            continue
+        t = b.term(blk)
+        if t["k"] == "return":
+            continue
+        if t["k"] == "call":
+            c = b.call_at(blk)
+            if c.dst_local() in hold:
+                nh = set(hold) - {c.dst_local()}
+                if not nh:
+                    return pt
+                hold = frozenset(nh)
+        for sx, lab in b.term_succ(blk, False):
+            if any((blk, sx) in null_edge_of.get(h, ()) for h in hold):
+                continue                      # known null on this edge: nothing to dispose of
+            dq.append((Point(sx, 0), hold))
+    return None
+
+
 def rule_o1(ctx, facts):
     for b in facts.bodies:
         if b.sid.startswith("reclaim::"):
@@ -90,6 +162,19 @@ def rule_o1(ctx, facts):
                 r = reach(b, after(b, c.point, label="ret"), avoid=set(cons) | nulls, avoid_edges=null_edges)
                 leaks = [rp for rp in return_points(b) if rp in r] if not ret_flow else []
                 f = "/".join(sorted(x[1] for x in receiver_field(b, c, 0))) or "slot"
+                if not leaks and not ret_flow:
+                    # the variable-level view above cannot see a holder that is re-used as a cursor: follow the value itself
+                    neo = {}
+                    for blk in range(len(b.blocks)):
+                        cd = cond_of(b, blk)
+                        if cd and cd["kind"] == "is_null" and cd.get("arg") is not None:
+                            neo.setdefault(cd["arg"], set()).add((blk, cd["true"]))
+                    lost = owner_overwritten(b, after(b, c.point, label="ret"), x, cons, nulls, neo)
+                    if lost is not None:
+                        ctx.inst("O1", b, "swap result (%s)" % f, b.span_at(lost), False,
+                                 "the previous %s returned by the swap at %s is still unconsumed when the last variable holding it is overwritten / goes "
+                                 "out of scope at %s: the object it points to (and everything only reachable from it) is never freed" % (f, c.span, b.span_at(lost)))
+                        continue
                 ctx.inst("O1", b, "swap result (%s)" % f, c.span, not leaks,
                          "consumed on every path: %s" % ", ".join(sorted(set(cons.values()) | ({"asserted null"} if nulls else set())))[:160] if not leaks else
                          "the previous %s returned by the swap at %s is dropped on a path to the return: the object it points to is leaked" % (f, c.span))
